@@ -259,6 +259,108 @@ impl Prop for C09 {
                 td.restore();
             }
         }
+        // A middle chunk is missing *and* the newest chunk holds no complete record (what a crash
+        // during a rotation leaves): the hole must still be reported, whatever recovery does with
+        // the record-less newest file.
+        if files.len() >= 3 {
+            let head_len = refcodec::parse_chunk(&files[newest].2).boundaries().get(1).copied().unwrap_or(0);
+            let cuts: Vec<usize> = vec![0, 1, head_len / 2, head_len.saturating_sub(1)];
+            for fi in 1..files.len() - 1 {
+                for (ci, cut) in cuts.iter().enumerate() {
+                    if ci > 0 && *cut == cuts[ci - 1] {
+                        continue;
+                    }
+                    td.set_file(&files[fi].1, None);
+                    td.set_file(&files[newest].1, Some(&files[newest].2[..*cut]));
+                    evals += 1;
+                    nt.push(mix(mix(img_hash, fi as u64), u64::MAX - 1 - *cut as u64));
+                    *labels.entry("middle_chunk_removed_newest_recordless".into()).or_insert(0) += 1;
+                    let what = format!("middle chunk {} removed and the newest chunk {} cut to {} bytes (no complete record)", files[fi].1, files[newest].1, cut);
+                    let out = td.open(&cfg);
+                    let after = td.current();
+                    match out {
+                        Trial::Err(_) => {
+                            for (fj, (_, n2, d2)) in files.iter().enumerate() {
+                                if fj != fi && fj != newest && after.get(n2) != Some(d2) {
+                                    return Err(Fail::new("refused-open-modified-older-chunk", format!("{what}: open refused but changed {}", n2)));
+                                }
+                            }
+                        }
+                        Trial::Ok(s) => return Err(Fail::new("missing-chunk-absorbed", format!("{what}: open succeeded (state {:?}, {} entries; written: {:?}, {} entries)", s.st, s.log.len(), want.st, want.log.len()))),
+                        Trial::ReadErr(e) => return Err(Fail::new("missing-chunk-absorbed", format!("{what}: open succeeded, read failed: {e}"))),
+                        Trial::Panic(e) => return Err(Fail::new("panic-on-corrupt-image", format!("{what}: panic: {e}"))),
+                    }
+                    td.restore();
+                }
+            }
+        }
+        // The newest chunk carries a zero-filled tail (a shape recovery tolerates: it cuts the
+        // zeros off) and one byte of a complete record of that chunk is altered: the damage must
+        // still be reported, the zeros behind it are no excuse. Tails: 40 bytes, and one that
+        // reaches past the next two 4 KiB boundaries.
+        {
+            let (_off, name, data) = &files[newest];
+            let parsed = refcodec::parse_chunk(data);
+            let bounds = parsed.boundaries();
+            let zt_budget: u64 = if all { 20_000 } else { 700 };
+            let space: u64 = (data.len() as u64) * 12 * 2;
+            let zstride = (space / zt_budget).max(1);
+            let mut zt: u64 = mix(case.sel, 5) % zstride;
+            for tail in [40usize, 3 * 4096 - data.len() % 4096] {
+                let mut base = data.clone();
+                base.resize(data.len() + tail, 0);
+                td.set_file(name, Some(&base));
+                match td.open(&cfg) {
+                    Trial::Ok(s2) if s2 == want => {}
+                    other => return Err(Fail::new("zero-tail-image-differs", format!("the settled image with {tail} zero bytes appended to {name} does not open to the written state: {:?}", other).chars().take(800).collect::<String>())),
+                }
+                for (ri, rec) in parsed.recs.iter().enumerate() {
+                    let (rs, re) = (bounds[ri], bounds[ri + 1]);
+                    for pos in rs..re {
+                        if skip_pos(rec, rs, re, pos, all) {
+                            continue;
+                        }
+                        for v in values(data[pos], all) {
+                            zt += 1;
+                            if zt % zstride != 0 {
+                                continue;
+                            }
+                            let mut m = base.clone();
+                            m[pos] = v;
+                            td.set_file(name, Some(&m));
+                            evals += 1;
+                            *labels.entry("zero_tail_mutations".into()).or_insert(0) += 1;
+                            nt.push(mix(mix(img_hash, 2_000_000 + tail as u64), pos as u64));
+                            let mp = refcodec::parse_chunk(&m);
+                            let overrun = mp.recs.len() == ri && mp.stop == Some(DecErr::Eof);
+                            let field = refcodec::field_at(rec, re - rs, pos - rs);
+                            let desc = format!("{name} with a {tail}-byte zero tail, byte {pos} ({field} of record #{ri} {:?}) changed {:#04x} -> {:#04x}", rec.kind(), data[pos], v);
+                            let fail = match td.open(&cfg) {
+                                Trial::Err(_) | Trial::ReadErr(_) => None,
+                                Trial::Ok(s2) if s2 == want => None,
+                                Trial::Ok(s2) => Some(Fail::new(
+                                    if overrun { K_NEWEST } else { "corruption-silently-absorbed" },
+                                    format!("{desc}: open succeeded with different contents: state {:?} / {} entries, written state {:?} / {} entries", s2.st, s2.log.len(), want.st, want.log.len()),
+                                )),
+                                Trial::Panic(e) => Some(Fail::new("panic-on-corrupt-image", format!("{desc}: panic: {e}"))),
+                            };
+                            if let Some(f) = fail {
+                                if ctx.known.is_known(&f.key) {
+                                    *labels.entry(format!("known_{}", f.key)).or_insert(0) += 1;
+                                    excluded += 1;
+                                    if known_hits.iter().filter(|k| k.0 == f.key).count() == 0 {
+                                        known_hits.push((f.key.clone(), f.msg.clone()));
+                                    }
+                                } else {
+                                    return Err(f);
+                                }
+                            }
+                        }
+                    }
+                }
+                td.restore();
+            }
+        }
         // Corruption while the store is open: a byte of a live entry's record in a closed chunk
         // changes under a running store whose cache holds nothing; reading that entry must
         // fail with an error or return the original payload.
